@@ -895,18 +895,20 @@ impl CompressionBmi2Dispatcher {
             // Software fallback
             symbol_masks.iter()
                 .map(|&mask| {
-                    let mut result = 0u32;
+                    // Extract into 64 bits and truncate like the PEXT path does: a mask
+                    // may select more than 32 bits
+                    let mut result = 0u64;
                     let mut bit_idx = 0;
                     let mut remaining_mask = mask;
                     
                     while remaining_mask != 0 {
                         if packed_data & remaining_mask & (!remaining_mask + 1) != 0 {
-                            result |= 1u32 << bit_idx;
+                            result |= 1u64 << bit_idx;
                         }
                         bit_idx += 1;
                         remaining_mask &= remaining_mask - 1;
                     }
-                    result
+                    result as u32
                 })
                 .collect()
         }
